@@ -137,6 +137,7 @@ pub fn run(rep: &mut Report) {
         let mut agg = Agg::default();
         let lab = HttpLab::new();
         lab.pooled.set(true);
+        let dir = crate::sched::scratch_dir("c17");
         let source = u.concat(&u.words, seq);
         let mut cuts = vec![];
         let mut p = 0;
@@ -183,6 +184,43 @@ pub fn run(rep: &mut Report) {
                                     accessor_check(&built.bytes, &mut agg, &detail);
                                     if agg.classes.len() > before {
                                         continue;
+                                    }
+                                    // what `bita info` and every clone print about it
+                                    {
+                                        let reader = bitar::archive_reader::IoReader::new(std::io::Cursor::new(built.bytes.clone()));
+                                        if let Err(p) = catch(|| {
+                                            if let Ok(Ok(a)) = drive_ready(Archive::try_init(reader)) {
+                                                crate::info_cmd::print_archive(&a);
+                                            }
+                                        }) {
+                                            agg.viol(&format!("panic@{}", panic_site(&p)), || detail("info", json!(p)));
+                                            continue;
+                                        }
+                                    }
+                                    // the real clone_cmd on a file and over HTTP (every 16th archive)
+                                    if count % 16 == 0 {
+                                        let apath = dir.path().join("a.cba");
+                                        let out = dir.path().join("out.bin");
+                                        std::fs::write(&apath, &built.bytes).unwrap();
+                                        for http in [false, true] {
+                                            let _ = std::fs::remove_file(&out);
+                                            let target = if http {
+                                                lab.server.arm(&built.bytes, Script { faults: vec![], splits: vec![], keep_alive: true });
+                                                lab.server.url()
+                                            } else {
+                                                apath.to_str().unwrap().to_string()
+                                            };
+                                            agg.add("cli_clones", 1);
+                                            match crate::c04::cli_clone(&lab.rt, crate::c04::cli_clone_args(&target, &out, &["--verify-output".to_string()])) {
+                                                Err(p) => agg.viol(&format!("panic@{}", panic_site(&p)), || detail("cli clone", json!(p))),
+                                                Ok(Err(e)) => agg.viol("conforming-archive-rejected", || detail("cli clone", json!(e))),
+                                                Ok(Ok(())) => {
+                                                    if std::fs::read(&out).unwrap_or_default() != source {
+                                                        agg.viol("conforming-archive-cloned-wrong", || detail("cli clone", json!(http)));
+                                                    }
+                                                }
+                                            }
+                                        }
                                     }
                                     let reader = bitar::archive_reader::IoReader::new(std::io::Cursor::new(built.bytes.clone()));
                                     match catch(|| drive_ready(reader_clone(reader))) {
@@ -245,10 +283,10 @@ pub fn run(rep: &mut Report) {
         agg
     });
     rep.agg.merge(a);
-    rep.set("evaluations", json!(rep.agg.get("archives") + rep.agg.get("http_clones") + rep.agg.get("seeded_clones")));
+    rep.set("evaluations", json!(rep.agg.get("archives") + rep.agg.get("http_clones") + rep.agg.get("seeded_clones") + rep.agg.get("cli_clones")));
     rep.set("distinct_nontrivial", json!(rep.agg.distinct_count("layouts")));
     rep.set("exhaustive", json!(thorough));
-    rep.set("rule", json!("independent encoder: sources of <=3/4 words (incl. empty source and duplicate chunks) x {current, legacy magic} x slack {0,1,7,100} x all permutations of the stored chunks x gap pattern {none, 1 byte after each, ramp} x unknown fields {none, in every message} x all per-chunk storage assignments {compressed iff smaller, raw, compressed although larger} x hash length {4,5,64} x {packed, unpacked rebuild order}, per chunker/compression universe (quick: a deterministic 1-in-5 thinning of the product that keeps every value of every dimension; thorough: the full product); each archive is opened by the real reader (accessors == encoder inputs) and cloned through IoReader, with a seed (recorded chunker parameters in use) and through HttpReader against the logging loopback server (requests == maximal runs); non-trivial = distinct archive byte strings"));
+    rep.set("rule", json!("independent encoder: sources of <=3/4 words (incl. empty source and duplicate chunks) x {current, legacy magic} x slack {0,1,7,100} x all permutations of the stored chunks x gap pattern {none, 1 byte after each, ramp} x unknown fields {none, in every message} x all per-chunk storage assignments {compressed iff smaller, raw, compressed although larger} x hash length {4,5,64} x {packed, unpacked rebuild order}, per chunker/compression universe (quick: a deterministic 1-in-5 thinning of the product that keeps every value of every dimension; thorough: the full product); each archive is opened by the real reader (accessors == encoder inputs), printed by the real info code, cloned through IoReader, every 16th through the real clone_cmd --verify-output on a file and over HTTP, with a seed (recorded chunker parameters in use) and through HttpReader against the logging loopback server (requests == maximal runs); non-trivial = distinct archive byte strings"));
     rep.assume("the independent encoder defines 'conforming'; it never stores a compressed chunk whose stored size equals its source size");
 }
 
